@@ -27,7 +27,7 @@ def load_known() -> Optional[Dict[str, Set[str]]]:
     if not os.path.exists(p):
         return None
     with open(p) as fh:
-        return {k: set(v) for k, v in json.load(fh).items()}
+        return {k: set(v) for k, v in json.load(fh).items()}  # values: list of names, or {name: skeleton digest}
 
 
 def qualnames(tree: ast.Module) -> Dict[str, Tuple[ast.AST, Optional[ast.ClassDef]]]:
